@@ -178,6 +178,11 @@ class UnitDefinition(PintParsedStatement, definitions.UnitDefinition):
             converter = value
             modifiers = {}
 
+        if not converter.strip():
+            return common.DefinitionSyntaxError(
+                f"Unit definition ('{name}') has no relation to another unit or dimension"
+            )
+
         converter = config.to_scaled_units_container(converter)
 
         try:
